@@ -38,12 +38,18 @@ def get_event(i, rparts, dt, mt, order, doc, entry):
     e.update(entry=entry, dt=dt, mt=mt)
     e["rparts"] = [enc_rpart(p) for p in rparts]
     e["doc"] = enc_val(doc)
-    parts = [gen.build_part(p) for p in rparts]
-    if entry == "bound":
-        path = dp.DataPath(*parts, source_data=doc)
-    else:
-        path = dp.DataPath(*parts)
-    path = apply_mods(path, dt, mt, order)
+    def construct():
+        ps = [gen.build_part(p) for p in rparts]
+        pa = dp.DataPath(*ps, source_data=doc) if entry == "bound" else dp.DataPath(*ps)
+        return ps, apply_mods(pa, dt, mt, order)
+
+    out0, built = outcome_of(construct)
+    if out0 in ("raised:TypeError", "raised:ValueError"):
+        raise TypeError("unconstructible recipe")
+    if out0 != "ok":
+        e["outcome"] = e["outcomep"] = out0      # an internal error while building: judged as a raise
+        return e
+    parts, path = built
     e["proj"] = enc_path(path)
 
     def call(rp):
